@@ -1,6 +1,6 @@
 (* C14 property theorems.  Only statements closed by [exact]; each followed by Print Assumptions.
    Stated over the definitions the harness runs (C14.Model.run / run_prog on the abstract stack of C14.Stack). *)
-From Miller Require Import C14.Value C14.Stack C14.Model C14.Proofs C14.StackProofs C14.InterpProofs C14.PrecProofs gen.Gen_Precedence.
+From Miller Require Import C14.Value C14.Stack C14.Model C14.Proofs C14.StackProofs C14.ScopeProofs C14.InterpProofs C14.PrecProofs gen.Gen_Precedence.
 Open Scope Z_scope.
 
 (* ---- the pooled, recycled frames and framesets of pkg/runtime/stack.go are observationally the abstract scopes:
@@ -53,6 +53,22 @@ Print Assumptions C14_callee_sees_no_caller_locals.
 Theorem C14_caller_stack_restored : forall s, s <> [] -> a_pop_set (a_push_set s) = s.
 Proof. exact pop_push_set. Qed.
 Print Assumptions C14_caller_stack_restored.
+
+(* ---- arguments are passed by value and callee locals are fenced off, over WHOLE executions (induction on fuel):
+   evaluating any expression -- with all the user-defined functions it calls, recursively, and every assignment they make to
+   their parameters and locals, indexed or not -- returns the local-variable stack of the evaluation context unchanged *)
+Theorem C14_arguments_by_value_callee_cannot_touch_caller_locals :
+  forall vr fns fuel e st v st',
+    stk st <> [] -> run vr fns fuel (TEval e) st = Ok (RV v, st') -> stk st' = stk st.
+Proof. exact expressions_preserve_locals. Qed.
+Print Assumptions C14_arguments_by_value_callee_cannot_touch_caller_locals.
+
+(* statements (blocks, loops, emits ...) only ever change the CURRENT frameset: every caller's frameset is untouched *)
+Theorem C14_statements_touch_only_current_frameset :
+  forall vr fns fuel ss st o st',
+    stk st <> [] -> run vr fns fuel (TBlock ss) st = Ok (RO o, st') -> tl (stk st') = tl (stk st) /\ stk st' <> [].
+Proof. exact statements_preserve_caller_framesets. Qed.
+Print Assumptions C14_statements_touch_only_current_frameset.
 
 (* ---- new fields are appended while reassigned fields keep their position *)
 Theorem C14_reassigned_field_keeps_position :
